@@ -11,6 +11,7 @@ import (
 	"github.com/refraction-networking/uquic/internal/monotime"
 	"github.com/refraction-networking/uquic/internal/protocol"
 	"github.com/refraction-networking/uquic/internal/qerr"
+	"github.com/refraction-networking/uquic/internal/verifhook"
 	"github.com/refraction-networking/uquic/internal/wire"
 )
 
@@ -169,6 +170,7 @@ func (s *ReceiveStream) readImpl(p []byte) (hasStreamWindowUpdate bool, hasConnW
 			}
 
 			s.mutex.Unlock()
+			verifhook.Point("recvStream.read.beforeWait")
 			if deadline.IsZero() {
 				<-s.readChan
 			} else {
@@ -332,6 +334,7 @@ func (s *ReceiveStream) peekImpl(b []byte) (int, error) {
 		}
 
 		s.mutex.Unlock()
+		verifhook.Point("recvStream.peek.beforeWait")
 		if deadline.IsZero() {
 			<-s.readChan
 		} else {
